@@ -64,8 +64,37 @@ _cache = {}
 
 
 # ------------------------------------------------------------------ generated tables
+def _observe_in_subprocess():
+    """the exhaustive observation builds thousands of objects with every keyword; it runs in a process of its own so
+    that state a library might share between objects (class-level defaults, module caches) cannot reach the
+    process that runs the histories - each history then starts from what it builds itself"""
+    import os
+    import pickle
+    import subprocess
+    import sys
+    import tempfile
+    fd, path = tempfile.mkstemp(prefix='lv-c08-obs-', suffix='.pkl')
+    os.close(fd)
+    try:
+        p = subprocess.run([sys.executable, '-W', 'ignore', '-m', 'harness.gen_ptype', '--pickle', path],
+                           cwd=C.ROOT, stdout=subprocess.PIPE, stderr=subprocess.PIPE, text=True, timeout=900)
+        if p.returncode != 0:
+            lines = [l for l in p.stderr.strip().splitlines() if l.strip()]
+            raise gen_ptype.GeneratorError(lines[-1] if lines else f'generator exited with {p.returncode}')
+        res = pickle.load(open(path, 'rb'))
+        _cache['overrides'] = [tuple(x) for x in res['overrides']]
+        if res['error']:
+            raise gen_ptype.GeneratorError(res['error'])
+        return res['obs']
+    finally:
+        try:
+            os.remove(path)
+        except OSError:
+            pass
+
+
 def pregen(tier):
-    obs = gen_ptype.generate()
+    obs = _observe_in_subprocess()
     doc = gen_doc.generate(obs['classes'])
     _cache['obs'] = obs
     _cache['doc'] = doc
@@ -127,11 +156,14 @@ def _reg(c):
 
 
 def _overrides():
-    """(class, ptype) pairs the class constructors accept, read off the code"""
+    """(class, ptype) pairs the class constructors accept, read off the code by the observation process
+    (never probed in this process: building objects here would precede the histories)"""
     if 'overrides' not in _cache:
-        lentil = C.import_lentil()
-        _cache['overrides'] = [(k, p) for k in _classes() for p in PTYPES if gen_ptype.accepts_override(lentil, k, p)]
-    return _cache['overrides']
+        try:
+            _observe_in_subprocess()
+        except Exception:
+            pass
+    return _cache.get('overrides', [])
 
 
 def _rand_plane(rng, classes_ok, p_clip=0.08, p_mism=0.12):
@@ -162,10 +194,18 @@ def _rand_op(rng, classes_ok, npool=0):
     if t < 0.97 or not npool:
         name = rng.choice(METHODS)
         return ['prop', name, rng.randrange(gen_ptype.n_variants('prop', name))]
-    return ['fresh', rng.choice(WTYPES), rng.choice(BODIES), rng.randrange(8)]
+    return ['fresh', rng.choice(WTYPES), rng.choice(BODIES), rng.randrange(24)]
 
 
 def generate(rng, tier):
+    """never refuses: what cannot be enumerated is reported by pregen (broken tie) and by the cases built so far"""
+    try:
+        yield from _generate(rng, tier)
+    except Exception as e:          # pragma: no cover - only on a tree where objects cannot be constructed
+        _cache['generate_error'] = f'{type(e).__name__}: {e}'
+
+
+def _generate(rng, tier):
     classes = _classes()
     ok = [k for k in classes if k not in BROKEN]
     ovr = _overrides()
@@ -221,7 +261,7 @@ def generate(rng, tier):
             for mism in ((False, True) if kind != 'prop' else (False,)):
                 n += 1
                 yield routes(dict(regime(n, kind != 'prop' or w == 'none', mism), op='program', start=w, body=b,
-                                  sv=n % 8, pool=[], ops=[mk(kind, name, clip, po, mism)]), n)
+                                  sv=n % 24, pool=[], ops=[mk(kind, name, clip, po, mism)]), n)
     # 2. every plane kind as ONE long-lived object used on wavefronts of two different types (both orders),
     #    directly, through copy(), and once more on the first type
     for kind, name, clip, po in planes:
@@ -234,7 +274,7 @@ def generate(rng, tier):
                 for cp in (False, True):
                     n += 1
                     yield routes(dict(regime(n, True), op='program', start=w1, body='plain', pool=[mk(kind, name, clip, po)],
-                                      ops=[['pool', 0, False], ['fresh', w2, rng.choice(BODIES), rng.randrange(8)],
+                                      ops=[['pool', 0, False], ['fresh', w2, rng.choice(BODIES), rng.randrange(24)],
                                            ['pool', 0, cp], ['fresh', w1, 'plain', 0], ['pool', 0, cp]]), n)
     # 3. every two-step program over the claimed operations (thorough), a sample of them (quick)
     claimed = [o for o in all_ops if o[1] not in BROKEN]
@@ -265,7 +305,7 @@ def generate(rng, tier):
                 ops.insert(rng.randrange(1, len(ops) + 1), ['back', rng.randint(1, 3)])
         t = rng.random()
         yield routes(dict(regime(rng.randrange(6)), op='program', start=rng.choice(WTYPES),
-                          body='tilted' if t < 0.2 else 'empty' if t < 0.3 else 'plain', sv=rng.randrange(8),
+                          body='tilted' if t < 0.2 else 'empty' if t < 0.3 else 'plain', sv=rng.randrange(24),
                           pool=pool, ops=ops))
 
 
@@ -361,12 +401,19 @@ def run_impl(c, hook=None):
     if 'body' not in c:                      # older corpus format
         c['body'] = 'tilted' if c.get('tilted') else 'plain'
     reg = _reg(c)
-    w = gen_ptype.build_wavefront(lentil, c['start'], c['body'], c.get('sv', 0), reg)
-    hist = []
-    pool = [gen_ptype.build_plane(lentil, sp[0], sp[1], sp[2], bool(sp[3]), sp[4] if len(sp) > 4 else None, reg,
-                                  bool(sp[5]) if len(sp) > 5 else False)
-            for sp in c['pool']]
     trace = []
+    try:
+        w = gen_ptype.build_wavefront(lentil, c['start'], c['body'], c.get('sv', 0), reg)
+    except gen_ptype.GeneratorError as e:
+        return {'trace': [], 'construct_error': f'the first wavefront (construction {c.get("sv", 0)}): {e}'}
+    hist = []
+    pool = []
+    for k, sp in enumerate(c['pool']):
+        try:
+            pool.append(gen_ptype.build_plane(lentil, sp[0], sp[1], sp[2], bool(sp[3]), sp[4] if len(sp) > 4 else None,
+                                              reg, bool(sp[5]) if len(sp) > 5 else False))
+        except gen_ptype.GeneratorError as e:
+            return {'trace': [], 'construct_error': f'pool object {k} {sp} (after pool objects 0..{k - 1} were built): {e}'}
     with warnings.catch_warnings():
         warnings.simplefilter('ignore')
         for o in c['ops']:
@@ -383,7 +430,10 @@ def run_impl(c, hook=None):
                 trace.append(entry)
                 continue
             if kind == 'fresh':
-                w = gen_ptype.build_wavefront(lentil, name, v[0], v[1], reg)
+                try:
+                    w = gen_ptype.build_wavefront(lentil, name, v[0], v[1], reg)
+                except gen_ptype.GeneratorError as e:
+                    return {'trace': trace, 'construct_error': f'step {len(trace)}, a new wavefront: {e}'}
                 entry['yields'] = _state(w)
                 trace.append(entry)
                 continue
@@ -392,7 +442,10 @@ def run_impl(c, hook=None):
                 fn = (lambda ww, name=name, v=v: gen_ptype.do_propagate(lentil, name, ww, v, reg))
             else:
                 if pi is None:
-                    pl = gen_ptype.build_plane(lentil, kind, name, v, clip, po, reg, mism)
+                    try:
+                        pl = gen_ptype.build_plane(lentil, kind, name, v, clip, po, reg, mism)
+                    except gen_ptype.GeneratorError as e:
+                        return {'trace': trace, 'construct_error': f'step {len(trace)} {o}: {e}'}
                 else:
                     pl = pool[pi].copy() if cp else pool[pi]
                 if pr:
@@ -456,7 +509,10 @@ def _failures(c, impl):
     c.setdefault('pool', [])
     if 'body' not in c:
         c['body'] = 'tilted' if c.get('tilted') else 'plain'
-    if len(tr) != len(c['ops']):
+    if impl.get('construct_error'):
+        out.append((len(tr), 'construct', 'an object of this history could not be built as documented - '
+                                          + impl['construct_error']))
+    elif len(tr) != len(c['ops']):
         out.append((len(tr) - 1, 'not-a-wavefront', f'step {len(tr) - 1} did not return a Wavefront: {tr[-1].get("yields")}'))
     cur = [c['start'], c['body']]
     for i, e in enumerate(tr):
@@ -546,7 +602,7 @@ def known_match(f, c, impl):
     if not fails:
         return False
     for i, code, _ in fails:
-        if i < 0 or i >= len(c['ops']):
+        if i < 0 or i >= len(c['ops']) or i >= len(impl['trace']) or code == 'construct':
             return False
         kind, name = _norm(c, c['ops'][i])[:2]
         e = impl['trace'][i]
@@ -786,7 +842,10 @@ def random_like(rng):
 
 # ------------------------------------------------------------------ extra: what the generated tables contain
 def extra(tier, rng):
-    obs = _cache.get('obs') or gen_ptype.observe_all()
+    obs = _cache.get('obs')
+    if obs is None:
+        return {'report': {'generator': 'the exhaustive observation was refused (see the broken tie)',
+                           'generate_error': _cache.get('generate_error')}, 'violations': []}
     doc = _doc()
     rep = {'observed_cells': {'mul': len(obs['mul']), 'class_mul': len(obs['cls']), 'prop': len(obs['prop'])},
            'public_plane_classes': obs['classes'],
